@@ -14,6 +14,40 @@ import (
 	"time"
 )
 
+// splitAnd splits a term text at top-level conjunctions, recursively.
+func splitAnd(t string) []string {
+	if !strings.HasPrefix(t, "(and ") || !strings.HasSuffix(t, ")") {
+		return []string{t}
+	}
+	inner := t[5 : len(t)-1]
+	var out []string
+	depth, start := 0, 0
+	inBar := false
+	for i := 0; i < len(inner); i++ {
+		switch ch := inner[i]; {
+		case ch == '|':
+			inBar = !inBar
+		case inBar:
+		case ch == '(':
+			depth++
+		case ch == ')':
+			depth--
+			if depth < 0 {
+				return []string{t} // "(and a) (b" cannot happen for a well-formed term; be safe
+			}
+		case ch == ' ' && depth == 0:
+			if i > start {
+				out = append(out, splitAnd(inner[start:i])...)
+			}
+			start = i + 1
+		}
+	}
+	if start < len(inner) {
+		out = append(out, splitAnd(inner[start:])...)
+	}
+	return out
+}
+
 // Query renders the SMT-LIB text of an obligation.
 func (c *Ctx) Query(ob *Obligation, entryFacts []*Term) string {
 	var b strings.Builder
@@ -23,11 +57,23 @@ func (c *Ctx) Query(ob *Obligation, entryFacts []*Term) string {
 		body.WriteString(d)
 		body.WriteByte('\n')
 	}
+	// facts are emitted as separate top-level conjuncts, once each: smaller e-matching units
+	// make the solvers markedly more stable than one large conjunction
+	seen := map[string]bool{}
+	emit := func(t string) {
+		for _, c := range splitAnd(t) {
+			if c == "true" || seen[c] {
+				continue
+			}
+			seen[c] = true
+			fmt.Fprintf(&body, "(assert %s)\n", c)
+		}
+	}
 	for _, f := range entryFacts {
-		fmt.Fprintf(&body, "(assert %s)\n", f.S)
+		emit(f.S)
 	}
 	for _, t := range ob.PC {
-		fmt.Fprintf(&body, "(assert %s)\n", t.S)
+		emit(t.S)
 	}
 	fmt.Fprintf(&body, "(assert (not %s))\n", ob.Goal.S)
 	text := body.String()
@@ -179,6 +225,20 @@ var solvers = []solverSpec{
 	{"z3", func(f string, t int) []string { return []string{"z3", fmt.Sprintf("-t:%d", t), f} }},
 }
 
+// raceSolvers adds differently seeded z3-new runs to the stage-2 race: e-matching on queries
+// with many quantified facts is chaotic in the seed, and a portfolio makes the outcome stable.
+var raceSolvers = append(append([]solverSpec{}, solvers...),
+	solverSpec{"z3-new/s1", func(f string, t int) []string {
+		return []string{"z3-new", fmt.Sprintf("-t:%d", t), "smt.random_seed=1", f}
+	}},
+	solverSpec{"z3-new/s2", func(f string, t int) []string {
+		return []string{"z3-new", fmt.Sprintf("-t:%d", t), "smt.random_seed=2", f}
+	}},
+	solverSpec{"z3-new/s3", func(f string, t int) []string {
+		return []string{"z3-new", fmt.Sprintf("-t:%d", t), "smt.random_seed=3", "smt.qi.eager_threshold=100", f}
+	}},
+)
+
 func runSolver(ctx context.Context, sp solverSpec, file string, timeoutMs int) (string, float64, string) {
 	args := sp.args(file, timeoutMs)
 	t0 := time.Now()
@@ -242,8 +302,8 @@ func solveOne(c *Ctx, ob *Obligation, entryFacts []*Term, dir string, idx int, t
 	}
 	ctx, cancel := context.WithCancel(context.Background())
 	defer cancel()
-	ch := make(chan r, len(solvers))
-	for _, sp := range solvers {
+	ch := make(chan r, len(raceSolvers))
+	for _, sp := range raceSolvers {
 		sp := sp
 		go func() {
 			res, secs, text := runSolver(ctx, sp, ob.Query, timeoutMs)
@@ -251,7 +311,7 @@ func solveOne(c *Ctx, ob *Obligation, entryFacts []*Term, dir string, idx int, t
 		}()
 	}
 	best := r{res: "timeout"}
-	for range solvers {
+	for range raceSolvers {
 		x := <-ch
 		if x.res == "unsat" || x.res == "sat" {
 			best = x
@@ -270,7 +330,7 @@ func solveOne(c *Ctx, ob *Obligation, entryFacts []*Term, dir string, idx int, t
 		ob.Secs += best.secs
 	}
 	if best.res == "sat" && !ob.ExpectSat {
-		for _, sp := range solvers {
+		for _, sp := range raceSolvers {
 			if sp.name == best.name {
 				ob.Model = getModel(ob.Query, sp, timeoutMs)
 			}
